@@ -28,6 +28,23 @@ type resultContainer struct {
 	DurationValue   time.Duration
 }
 
+// valueType is the type of the value the container holds.
+func (rc resultContainer) valueType() ast.ValueType {
+	switch {
+	case rc.IsBoolValue:
+		return ast.TBool
+	case rc.IsInt64Value:
+		return ast.TInt
+	case rc.IsFloat64Value:
+		return ast.TFloat
+	case rc.IsStringValue:
+		return ast.TString
+	case rc.IsDurationValue:
+		return ast.TDuration
+	}
+	return ast.InvalidType
+}
+
 // this function shouldn't be used! only for throwing details error messages!
 func (rc resultContainer) value() interface{} {
 	switch {
@@ -174,7 +191,7 @@ func (e *EvalBinaryNode) EvalDuration(scope *Scope, executionState ExecutionStat
 		return result.DurationValue, nil
 	}
 
-	return 0, fmt.Errorf("expression returned unexpected type %T", result.value())
+	return 0, ErrTypeGuardFailed{RequestedType: ast.TDuration, ActualType: result.valueType()}
 }
 
 func (e *EvalBinaryNode) EvalString(scope *Scope, executionState ExecutionState) (string, error) {
@@ -187,7 +204,7 @@ func (e *EvalBinaryNode) EvalString(scope *Scope, executionState ExecutionState)
 		return result.StringValue, nil
 	}
 
-	return "", fmt.Errorf("expression returned unexpected type %T", result.value())
+	return "", ErrTypeGuardFailed{RequestedType: ast.TString, ActualType: result.valueType()}
 }
 
 // EvalBool executes the expression based on eval bool
